@@ -21,6 +21,34 @@ Proof.
   - rewrite shift_cons. unfold get in *. cbn [nth]. apply IH. lia.
 Qed.
 
+Lemma get_upd_other d e (i : idx) v : d <> e -> get e (upd d i v) = get e i.
+Proof.
+  unfold get. revert e i. induction d as [|d IH]; intros e [|c r] H; cbn [upd]; try reflexivity.
+  - destruct e; [contradiction | reflexivity].
+  - destruct e; [reflexivity | cbn [nth]; apply IH; lia].
+Qed.
+
+Lemma upd_upd_comm d e (i : idx) v u : d <> e -> upd e (upd d i v) u = upd d (upd e i u) v.
+Proof.
+  revert e i. induction d as [|d IH]; intros e [|c r] H.
+  - destruct e; reflexivity.
+  - destruct e; [contradiction | reflexivity].
+  - destruct e; reflexivity.
+  - destruct e; [reflexivity | cbn [upd]; f_equal; apply IH; lia].
+Qed.
+
+Lemma cshift_length sh d (i : idx) k : length (cshift sh d i k) = length i.
+Proof. apply upd_length. Qed.
+
+(* moving along axis d and the clamped neighbour along another axis e commute *)
+Lemma cshift_shift_comm sh e d (i : idx) k dl : e <> d -> cshift sh e (shift d i k) dl = shift d (cshift sh e i dl) k.
+Proof.
+  intro H. unfold cshift, shift.
+  rewrite (get_upd_other d e) by (intro E; apply H; symmetry; exact E).
+  rewrite (get_upd_other e d) by exact H.
+  apply upd_upd_comm. intro E; apply H; symmetry; exact E.
+Qed.
+
 Definition region := list (Z * Z).
 Fixpoint inR (R : region) (j : idx) : Prop :=
   match R, j with
@@ -121,11 +149,8 @@ Proof. intros. unfold d1, dstep. apply fd_aff; assumption. Qed.
 Lemma fd_ext sh h d (f g : img) : (forall j, f j = g j) -> forall i, fd sh h d f i = fd sh h d g i.
 Proof. intros H i. unfold fd. rewrite !H. reflexivity. Qed.
 
-Lemma zp_ext sh d (f g : img) : (forall j, f j = g j) -> forall i, zp sh d f i = zp sh d g i.
-Proof. intros H i. unfold zp. rewrite H. reflexivity. Qed.
-
 Lemma smooth_ext sh w d (f g : img) : (forall j, f j = g j) -> forall i, smooth sh w d f i = smooth sh w d g i.
-Proof. intros H i. unfold smooth. rewrite !(zp_ext sh d f g H), H. reflexivity. Qed.
+Proof. intros H i. unfold smooth. rewrite !H. reflexivity. Qed.
 
 Lemma fold_smooth_ext sh w d l (f g : img) :
   (forall j, f j = g j) ->
@@ -154,12 +179,12 @@ Qed.
 
 Lemma smooth_plus sh w d (f g : img) i : smooth sh w d (fplus f g) i = smooth sh w d f i + smooth sh w d g i.
 Proof.
-  unfold smooth, zp, fplus. do 2 destruct (_ && _); rewrite !(Fdiv_def Kf); ring.
+  unfold smooth, fplus. rewrite !(Fdiv_def Kf). ring.
 Qed.
 
 Lemma smooth_scale sh w d s (f : img) i : smooth sh w d (fscale s f) i = s * smooth sh w d f i.
 Proof.
-  unfold smooth, zp, fscale. do 2 destruct (_ && _); rewrite !(Fdiv_def Kf); ring.
+  unfold smooth, fscale. rewrite !(Fdiv_def Kf). ring.
 Qed.
 
 Lemma fold_smooth_plus sh w d l (f g : img) i :
@@ -213,36 +238,48 @@ Proof.
   intros Hh Hk. unfold fd. cbv zeta. destruct (Z.eqb _ _); [|destruct (Z.eqb _ _)]; field; auto.
 Qed.
 
-(* ---- affine functions through the zero-padded cross smoothing: region calculus ---------------------- *)
-Definition affOn (P : idx -> Prop) (f : img) (c : K) (a : list K) : Prop := forall j, P j -> f j = aff c a j.
+(* ---- affine functions through the replicate-padded cross smoothing ---------------------------------------- *)
+(* g has slope a along axis d: moving k samples along d adds a * k, at every point *)
+Definition slope_along (d : nat) (g : img) (a : K) : Prop :=
+  forall (i : idx) k, (d < length i)%nat -> g (shift d i k) = g i + a * of_Z k.
 
-Lemma smooth_affOn sh w d R (f : img) c a :
-  w + (1 + 1) <> 0 -> (d < length R)%nat -> (0 <= lo_of d R)%Z -> (hi_of d R <= nth d sh 0%Z - 1)%Z ->
-  affOn (inR R) f c a -> affOn (inR (shrink d R)) (smooth sh w d f) c a.
+Lemma aff_slope c (a : list K) d : slope_along d (aff c a) (nth d a 0).
+Proof. intros i k H. apply aff_shift. exact H. Qed.
+
+(* smoothing along another axis keeps the slope along d (also at the boundary, where the smoothed function is
+   no longer the affine function itself) *)
+Lemma smooth_slope sh w e d (g : img) a :
+  w + (1 + 1) <> 0 -> e <> d -> slope_along d g a -> slope_along d (smooth sh w e g) a.
 Proof.
-  intros Hw Hd Hlo Hhi H j Hj.
-  destruct (inR_shrink d R j Hd Hj) as (A & B & C & E).
-  pose proof (inR_length R j A) as HL. assert (Hdj : (d < length j)%nat) by lia.
-  unfold smooth, zp. rewrite !get_shift by exact Hdj.
-  assert (T1 : (0 <=? get d j + -1)%Z && (get d j + -1 <? nth d sh 0%Z)%Z = true).
-  { apply andb_true_iff. split; [apply Z.leb_le | apply Z.ltb_lt]; lia. }
-  assert (T2 : (0 <=? get d j + 1)%Z && (get d j + 1 <? nth d sh 0%Z)%Z = true).
-  { apply andb_true_iff. split; [apply Z.leb_le | apply Z.ltb_lt]; lia. }
-  rewrite T1, T2, (H _ A), (H _ B), (H _ C), !aff_shift by exact Hdj. cbn [of_Z of_pos].
-  field. exact Hw.
+  intros Hw Hne Hg i k Hd. unfold smooth.
+  rewrite !(cshift_shift_comm sh e d i k) by exact Hne.
+  rewrite !Hg by (rewrite ?cshift_length; exact Hd). field. exact Hw.
 Qed.
 
-Lemma fd_affOn sh h d R (f : img) c a :
-  h <> 0 -> (d < length R)%nat ->
-  affOn (inR R) f c a -> affOn (inR (shrink d R)) (fd sh h d f) (nth d a 0 / h) [].
+Lemma fold_smooth_slope sh w d l (g : img) a :
+  w + (1 + 1) <> 0 -> slope_along d g a ->
+  slope_along d (fold_left (fun g0 e => if Nat.eqb e d then g0 else smooth sh w e g0) l g) a.
 Proof.
-  intros Hh Hd H j Hj.
-  destruct (inR_shrink d R j Hd Hj) as (A & B & C & E).
-  pose proof (inR_length R j A) as HL. assert (Hdj : (d < length j)%nat) by lia.
-  unfold fd. cbv zeta. rewrite (H _ A), (H _ B), (H _ C), !aff_shift by exact Hdj.
-  assert (E0 : aff (nth d a 0 / h) [] j = nth d a 0 / h) by (unfold aff; rewrite lin_nil_l; ring).
-  rewrite E0. cbn [of_Z of_pos].
+  intro Hw. revert g. induction l as [|e l IH]; intros g Hg; cbn [fold_left]; [exact Hg|].
+  apply IH. destruct (Nat.eqb e d) eqn:E; [exact Hg|]. apply Nat.eqb_neq in E. apply smooth_slope; assumption.
+Qed.
+
+(* the difference scheme along d of a function with slope a along d is a / h, at every point *)
+Lemma fd_slope sh h d (g : img) a (i : idx) :
+  h <> 0 -> (d < length i)%nat -> slope_along d g a -> fd sh h d g i = a / h.
+Proof.
+  intros Hh Hd Hg. unfold fd. cbv zeta. rewrite !Hg by exact Hd. cbn [of_Z of_pos].
   destruct (Z.eqb _ _); [|destruct (Z.eqb _ _)]; field; auto.
+Qed.
+
+(* smoothing a function that is constant on all points of one length gives that constant *)
+Lemma fold_smooth_const sh w d l (g : img) v n :
+  w + (1 + 1) <> 0 -> (forall j, length j = n -> g j = v) ->
+  forall j, length j = n -> fold_left (fun g0 e => if Nat.eqb e d then g0 else smooth sh w e g0) l g j = v.
+Proof.
+  intro Hw. revert g. induction l as [|e l IH]; intros g Hg j Hj; cbn [fold_left]; [apply Hg; exact Hj|].
+  apply IH; [|exact Hj]. destruct (Nat.eqb e d); [exact Hg|].
+  intros j' Hj'. unfold smooth. rewrite !Hg by (rewrite ?cshift_length; exact Hj'). field. exact Hw.
 Qed.
 
 Lemma nth_nil_zero d : nth d (@nil K) 0 = 0.
